@@ -314,6 +314,45 @@ fn low_order_recipient(ctx: &Ctx) {
             }
         }
     }
+    // keyrings of many sizes (3 .. 1000 contacts, unsorted): the name reported for an authentic file is the
+    // name of the entry that holds the sender's key, wherever it stands; an unlisted sender is never named
+    {
+        let wd = WorkDir::new("c05big");
+        let sizes: Vec<usize> = ctx.tier.pick(vec![3usize, 33, 65, 130, 300], vec![3usize, 17, 33, 64, 65, 66, 130, 257, 300, 1000, 4000]);
+        for (si, n) in sizes.iter().enumerate() {
+            let alice = Ident::new("alice", "apw", &mut rng);
+            let bob = Ident::new("bob", "bpw", &mut rng);
+            let stranger = Ident::new("stranger", "spw", &mut rng);
+            for pos in [0usize, n / 2, n - 1] {
+                let mut entries: Vec<String> = (0..*n).map(|i| format!("[Key]\nName = contact-{:04}\nPublicKey = {}\n", i, refspec::encode_pk(&refspec::pubkey_of(&rng.arr32())))).collect();
+                entries[pos] = alice.entry(false);
+                let bob_at = (pos + n / 3 + 1) % n;
+                entries[if bob_at == pos { (pos + 1) % n } else { bob_at }] = bob.entry(true);
+                wd.write("big.txt", entries.join("\n").as_bytes());
+                for (who, from) in [("alice", &alice), ("stranger", &stranger)] {
+                    let f = refspec::encode_key_file(&from.sk, &from.pk, &bob.pk, &rng.arr32(), &rng.arr32(), b"hello", &[5]).unwrap();
+                    wd.write("big.ktl", &f);
+                    let o = Cmd::new(&wd.path, &["decrypt", "big.ktl", "-t", "bob", "-k", "big.txt", "--env-pass"]).pass("bpw").run();
+                    ctx.eval();
+                    let err = o.stderr_s();
+                    let named: Option<String> = err.lines().find_map(|l| l.split("File from: ").nth(1)).map(|x| x.trim().to_string());
+                    let case = || json!({"keyring_entries": n, "sender": who, "sender_entry_position": pos, "exit": o.exit.describe(), "stderr": err});
+                    if o.exit == Exit::Timeout {
+                        ctx.inconclusive("C05 cli: timeout");
+                    } else if o.exit != Exit::Code(0) || o.stdout != b"hello" {
+                        ctx.violation("C05:cli:authentic-file-not-decrypted-with-a-large-keyring", case());
+                    } else if who == "alice" && named.as_deref() != Some("alice") {
+                        ctx.violation("C05:cli:sender-reported-under-a-name-whose-key-did-not-take-part", case());
+                    } else if who == "stranger" && named.is_some() {
+                        ctx.violation("C05:cli:unlisted-sender-reported-under-a-keyring-name", case());
+                    } else {
+                        ctx.seen("cli: sender named correctly (or reported unknown) with keyrings of many sizes");
+                        ctx.distinct(&format!("bigring|{}|{}|{}|{}", si, n, pos, who));
+                    }
+                }
+            }
+        }
+    }
     // sanity of the oracle's low-order list: each is really low order for a clamped scalar
     for lo in &low {
         if x25519_raw(&rng.arr32(), lo) != [0u8; 32] {
@@ -342,4 +381,5 @@ pub fn run(ctx: &Ctx) {
     ctx.require("low-order recipient refused by key_encrypt", 14);
     ctx.require("low-order recipient refused by the CLI", 14);
     ctx.require("cli: file decrypts only under the key that was named", 6);
+    ctx.require("cli: sender named correctly (or reported unknown) with keyrings of many sizes", 20);
 }
